@@ -114,4 +114,68 @@ static Val run_copier(const Val &c)
     return log;
 }
 
-void reg_copier() { registerFamily("copier", run_copier); }
+// family "copierbig": a random-access source far larger than memory (its bytes are a function of the position), a destination that
+// checks what it gets; the copy is watched for a number of turns only.   case ::= ( size bs from to turns )
+//   obs ::= ( bytesWritten contentCorrect errors finished )
+namespace {
+inline char patternAt(qint64 pos) { return char((pos * 7 + 1) % 251); }
+class BigSrc : public QIODevice
+{
+public:
+    explicit BigSrc(qint64 size) : mSize(size) {}
+    bool isSequential() const override { return false; }
+    qint64 size() const override { return mSize; }
+    bool atEnd() const override { return pos() >= mSize; }
+    qint64 bytesAvailable() const override { return qMax<qint64>(0, mSize - pos()) + QIODevice::bytesAvailable(); }
+protected:
+    qint64 readData(char *data, qint64 len) override
+    {
+        qint64 p = pos();
+        qint64 n = qMax<qint64>(0, qMin(len, mSize - p));
+        for (qint64 i = 0; i < n; ++i) data[i] = patternAt(p + i);
+        return n;
+    }
+    qint64 writeData(const char *, qint64) override { return -1; }
+private:
+    qint64 mSize;
+};
+class CheckDst : public QIODevice
+{
+public:
+    explicit CheckDst(qint64 from) : mNext(from) {}
+    bool isSequential() const override { return true; }
+    qint64 written = 0; bool ok = true;
+protected:
+    qint64 readData(char *, qint64) override { return -1; }
+    qint64 writeData(const char *data, qint64 len) override
+    {
+        for (qint64 i = 0; i < len; ++i) if (data[i] != patternAt(mNext + i)) ok = false;
+        mNext += len; written += len;
+        return len;
+    }
+private:
+    qint64 mNext;
+};
+}
+static Val run_copierbig(const Val &c)
+{
+    qint64 size = c.at(0).asInt(), bs = c.at(1).asInt(), from = c.at(2).asInt(), to = c.at(3).asInt();
+    int turns = int(c.at(4).asInt());
+    BigSrc src(size);
+    CheckDst dst(from);
+    int errors = 0, finished = 0;
+    {
+        QIODeviceCopier copier(&src, &dst);
+        copier.setBufferSize(bs);
+        copier.setRange(from, to);
+        QObject::connect(&copier, &QIODeviceCopier::error, [&](const QString &) { ++errors; });
+        QObject::connect(&copier, &QIODeviceCopier::finished, [&]() { ++finished; });
+        copier.start();
+        for (int i = 0; i < turns; ++i) QCoreApplication::processEvents();
+        copier.stop();
+    }
+    QCoreApplication::processEvents();
+    return Val::List({Val::Int(dst.written), Val::Bool(dst.ok), Val::Int(errors), Val::Int(finished)});
+}
+
+void reg_copier() { registerFamily("copier", run_copier); registerFamily("copierbig", run_copierbig); }
